@@ -142,6 +142,8 @@ func c01Templates() []model.Entry {
 		{Src: "etc/app.conf", Dst: "/etc/own.conf", HasInfo: true, Owner: "app"},
 		{Src: "bin/app", Dst: "/usr/bin/sticky", Mode: 0o1755},
 		{Src: "/abs/target", Dst: "/usr/lib/applink2", Type: "symlink", Owner: "app", Group: "grp"},
+		{Src: "etc/app.conf", Dst: "/etc/expanded.conf", Type: "config|noreplace", Expand: true, Mode: 0o600, Owner: "app", Group: "grp", MTime: EntryMTime},
+		{Dst: "/var/lib/expanded", Type: "dir", Expand: true, Mode: 0o2770, Owner: "app"},
 	}
 	// on-disk symlinks with non-canonical targets (shipped literally), inserted into the quick alphabet
 	links := []model.Entry{
